@@ -1,5 +1,7 @@
-"""Per-property configuration: harnesses, tiers, non-triviality rules, assumptions."""
-from vv.core import harness
+"""Per-property configuration lives in vv/props/cXX.py (one file per property); this module loads them all."""
+import glob
+import importlib
+import os
 
 COMMON_ASSUME = [
     "the sanitizer (ASan+UBSan, -O1, asserts on, -DVOTCA_VERIF) build of /repo's working tree behaves like the release build",
@@ -23,18 +25,5 @@ def fz(target, quick, thorough, **kw):
     return d
 
 
-# ---------------------------------------------------------------- C18
-harness("h_c18", ["harness/h_c18.cc"], libs=("csg", "xtp"))
-PROPS["C18"] = dict(
-    parts=[rc("h_c18", quick=dict(cases=60000, procs=2, args=["--enum", "5"], budget_s=600),
-              thorough=dict(cases=3000000, procs=16, args=["--enum", "6"], budget_s=3000))],
-    rule=("wildcmp: exhaustive (pattern over {a,b,*,?}, string over {a,b}, length<=5 quick / <=6 thorough) + generated pairs up to "
-          "length 40 derived from the pattern and mutated, oracle = DP glob matcher; non-trivial = pattern has '*' followed later by a literal. "
-          "range: exhaustive b[:s]:e with b,s,e in -5..5 (quick) / -6..6 (thorough) + generated comma lists with blanks, negative strides and "
-          "malformed mutants, oracle = direct enumeration of the grammar with a 10^4 step budget; non-trivial = |stride| != 1 or not well-formed. "
-          "index: generated index multisets <-> strings, oracle = std::set; non-trivial = has a consecutive run and duplicates. "
-          "beadselect: generated topologies + type / name: patterns vs DP matcher; non-trivial = wildcard pattern selecting a proper non-empty subset."),
-    assumptions=COMMON_ASSUME + ["range expressions with an empty begin/end field, empty blocks or an empty string are treated as 'either accepted or rejected' (only termination is required)"],
-    exhaustive_in="both",
-    exhaustive_note="the small-scope enumerations are complete; the generated part is a sample",
-)
+for _f in sorted(glob.glob(os.path.join(os.path.dirname(__file__), "props", "c*.py"))):
+    importlib.import_module("vv.props." + os.path.basename(_f)[:-3])
